@@ -146,6 +146,11 @@ func targetsAreOrdered(graph *dag.DirectedTargetGraph, a, b model.BuildNode, anc
 		ancestorCache = make(map[label.TargetLabel]map[label.TargetLabel]struct{})
 	}
 
+	// A target cannot race with itself: its own outputs may overlap (e.g. a bin_output inside a dir output)
+	if a.GetLabel() == b.GetLabel() {
+		return true
+	}
+
 	ancestorsOfA := getAncestorSet(graph, a, ancestorCache)
 	if _, ok := ancestorsOfA[b.GetLabel()]; ok {
 		return true
